@@ -12,6 +12,8 @@
 #include "NinjaBuildCommand.h"
 
 #include <algorithm>
+#include <cerrno>
+#include <csignal>
 #include <cstring>
 #include <memory>
 
@@ -355,6 +357,12 @@ struct Run {
       ev("tool-end " + name + " failed");
       c.write(2, "simulated failure\n");
       return 1;
+    }
+    if (mode == "signal") {
+      execs.push_back({buildNo, name, false});
+      ev("tool-end " + name + " signal");
+      c.dieBySignal(SIGSEGV);
+      return 0;
     }
     if (st->rsp) {
       // the driver writes the response file before the command runs (and removes it after success)
@@ -840,6 +848,21 @@ struct Run {
     simos::reset();
     Run* self = this;
     simos::registerProgram("/bin/sh", [self](simos::ProcCtx& c) { return self->shProgram(c); });
+    // failure mode "spawn": posix_spawn of the statement's shell fails
+    simos::hooks().spawnFault = [self](const std::string&, const std::vector<std::string>& argv) -> int {
+      if (argv.size() < 3) return 0;
+      for (auto& f : self->failFlags) {
+        if (f.second != "spawn") continue;
+        if (argv[2].compare(0, 13 + f.first.size(), "/sim/bin/cc " + f.first + " ") == 0 || argv[2] == "/sim/bin/cc " + f.first) {
+          self->res.counters["spawn_failures_injected"]++;
+          self->ev("spawn-refused " + f.first);
+          self->execs.push_back({self->buildNo, f.first, false});   // an attempt that failed, as far as the oracles go
+          static const int errs[] = {EAGAIN, ENOMEM, EACCES};
+          return errs[self->buildNo % 3];
+        }
+      }
+      return 0;
+    };
     for (auto& op : plan.geta("history")) {
       std::string kind = op.gets("op");
       if (kind == "build") opBuild(op);
@@ -860,7 +883,7 @@ struct Run {
           ev("edit-manifest " + op.gets("kind"));
         }
       } else if (kind == "fail") {
-        failFlags[op.gets("name")] = "exit";
+        failFlags[op.gets("name")] = op.gets("mode", "exit");
         ev("fail-flag " + op.gets("name"));
       } else if (kind == "unfail_all") {
         failFlags.clear();
@@ -1108,7 +1131,9 @@ public:
         for (auto& s : man.stmts)
           if (!s.phony) names.push_back(s.name);
         std::string victim = names[rng.below(names.size())];
-        hist.push(Json::obj().set("op", "fail").set("name", victim));
+        // the command exits non-zero, dies from a signal, or cannot be started at all
+        unsigned fm = (unsigned)rng.below(10);
+        hist.push(Json::obj().set("op", "fail").set("name", victim).set("mode", fm < 6 ? "exit" : fm < 8 ? "signal" : "spawn"));
         const Stmt* vs = man.byName(victim);
         hist.push(Json::obj().set("op", "delete").set("path", vs->outs[0]));
         addBuild();
